@@ -30,3 +30,21 @@ pub fn base64_encode(i: &[u8]) -> String {
 pub fn base64_decode(i: &[u8]) -> Option<Vec<u8>> {
     crate::base64::decode(i).ok()
 }
+
+/// Callback invoked at the pool's critical-section boundaries (see `pool_probe`)
+pub type PoolProbe = Box<dyn Fn(&'static str, &str) + Send + Sync>;
+
+static POOL_PROBE: std::sync::RwLock<Option<PoolProbe>> = std::sync::RwLock::new(None);
+
+/// Installs (or removes) the probe callback
+pub fn set_pool_probe(probe: Option<PoolProbe>) {
+    *POOL_PROBE.write().unwrap() = probe;
+}
+
+/// Reports that the pool reached `point`; `info` names the connection concerned
+/// (the server name it announced in its EHLO reply) where there is one
+pub fn pool_probe(point: &'static str, info: &str) {
+    if let Some(probe) = POOL_PROBE.read().unwrap().as_ref() {
+        probe(point, info);
+    }
+}
